@@ -8,7 +8,7 @@ from props.framing import block_ref
 ID = 'C10'
 RULE = ('files of n = 1..8 records x every position k of the bad record x fault kind {truncated record, length above the maximum, '
         'undecodable MTI, unconfigured bitmap bit, bad field length, bad typed value, bad PDS sub-length, TLV tag at end of field} '
-        'x {VBS, 1014} x {latin_1, cp500} x consumption style {one for-loop, next() then a loop, islice batches}; observed: records before the error, record_number, binary_context_data and the '
+        'x {VBS, 1014} x {latin_1, cp500} x consumption style {one for-loop, next() then a loop, islice batches}; plus files with SEVERAL bad records read by a consumer that keeps the reader after each data error (every bad record must be reported under its own number, framing faults after them too); observed: records before the error, record_number, binary_context_data and the '
         'operator message printed by print_exception_details; non-trivial = distinct case with k >= 2')
 EXHAUSTIVE = {'quick': False, 'thorough': False}
 ASSUMPTIONS = []
@@ -52,7 +52,74 @@ def gen(rng, tier):
                         cases.append({'codec': codec, 'blocked': blocked, 'kind': kind, 'k': k, 'good': [g.hex() for g in good],
                                       'style': ['loop', 'next-then-loop', 'batches'][(n + k + len(cases)) % 3],
                                       'cut': rng.randrange(1, 20), 'big': rng.choice([6001, 6002, 70000, 0x40404040, 0xffffffff])})
+    # resilient consumers: several bad records in one file, the consumer keeps the reader after each data error
+    for i in range(60 if tier == 'quick' else 1500):
+        codec = rng.choice(['latin_1', 'cp500'])
+        n = rng.choice([2, 3, 4, 6, 9])
+        slots = []
+        for j in range(n):
+            if rng.random() < 0.45:
+                slots.append(['bad', rng.choice([k for k in FAULTS if k not in ('truncated', 'oversize')])])
+            else:
+                slots.append(['good', iu.ref_wire(iu.rand_message(rng, pk, codec, nbits=rng.choice([1, 3, 7])), pk, codec, False).hex()])
+        if not any(sl[0] == 'bad' for sl in slots):
+            slots[rng.randrange(n)] = ['bad', 'bit']
+        cases.append({'style': 'resilient', 'codec': codec, 'blocked': rng.random() < 0.5, 'slots': slots,
+                      'tail': rng.choice([None, None, 'truncated', 'oversize', 'noterm']), 'cut': rng.randrange(1, 20),
+                      'big': rng.choice([6001, 70000, 0x40404040]), 'kind': 'resilient', 'k': 1 + min(j for j, sl in enumerate(slots) if sl[0] == 'bad'), 'good': []})
     return cases
+
+
+def build_resilient(case):
+    """file bytes and, per record slot, (is_good, raw frame)"""
+    stream = b''
+    frames = []
+    for kind, x in case['slots']:
+        r = bytes.fromhex(x) if kind == 'good' else bad_record(x, case['codec'])
+        fr = len(r).to_bytes(4, 'big') + r
+        frames.append((kind == 'good', fr))
+        stream += fr
+    tail = case.get('tail')
+    extra = None
+    if tail == 'truncated':
+        r = bad_record('bit', case['codec']) * 3
+        extra = len(r).to_bytes(4, 'big') + r[:max(0, len(r) - case['cut'])]
+        stream += extra
+    elif tail == 'oversize':
+        extra = case['big'].to_bytes(4, 'big')
+        stream += extra + b'\x00\x00\x00\x00'
+    elif tail != 'noterm':
+        stream += b'\x00\x00\x00\x00'
+    if case['blocked']:
+        if tail == 'truncated':
+            n = len(stream)
+            return block_ref(stream + b'\x00' * 8)[:n + 2 * (n // 1012)], frames, extra
+        return block_ref(stream), frames, extra
+    return stream, frames, extra
+
+
+def impl_resilient(case):
+    from cardutil import mciipm, iso8583, CardutilError
+    f, frames, extra = build_resilient(case)
+    ev = []
+    res = {}
+    try:
+        reader = mciipm.IpmReader(io.BytesIO(f), encoding=case['codec'], blocked=case['blocked'])
+        for _ in range(len(f) // 4 + 8):
+            try:
+                ev.append('R' + (iu.dict_text(next(reader)) or '~'))
+            except StopIteration:
+                res['end'] = 'END'
+                break
+            except mciipm.MciIpmDataError as ex:
+                ev.append('E%s:%s' % (ex.record_number, (ex.binary_context_data or b'').hex() or '-'))
+        else:
+            res['end'] = 'NOEND'
+    except Exception as ex:
+        res['end'] = exc_class(ex)
+    res['events'] = ev
+    res['solo'] = [iu.dict_text(iso8583.loads(fr[4:], encoding=case['codec'])) if good else None for good, fr in frames]
+    return res
 
 
 def build(case):
@@ -92,6 +159,8 @@ def build(case):
 def impl(case):
     from cardutil import mciipm, iso8583
     from cardutil.cli import print_exception_details
+    if case.get('style') == 'resilient':
+        return impl_resilient(case)
     f, ctx, _ = build(case)
     recs = []
     res = {}
@@ -133,11 +202,42 @@ def impl(case):
 
 
 def model_lines(case, io_):
+    if case.get('style') == 'resilient':
+        f, _, _ = build_resilient(case)
+        return ['ipm_events packaged %s %s %s' % (iu.hs(case['codec']), '1' if case['blocked'] else '0', hb(f))]
     f, _, _ = build(case)
     return ['ipm_read packaged %s %s %s' % (iu.hs(case['codec']), '1' if case['blocked'] else '0', hb(f))]
 
 
+def judge_resilient(case, io_, mo):
+    ps = []
+    f, frames, extra = build_resilient(case)
+    ev = io_.get('events', [])
+    if io_.get('end') not in ('END',):
+        return [{'kind': 'oracle', 'sig': 'resilient-consumer-' + str(io_.get('end')), 'msg': 'a consumer that keeps reading after each data error ended with %s' % io_.get('end')}]
+    for k, ((good, fr), solo) in enumerate(zip(frames, io_['solo']), 1):
+        got = ev[k - 1] if k <= len(ev) else None
+        want = ('R' + (solo or '~')) if good else 'E%d:%s' % (k, fr.hex())
+        if got != want:
+            ps.append({'kind': 'oracle', 'sig': 'resilient-' + ('record-changed' if good else 'wrong-record-number-or-context'),
+                       'msg': 'record %d of a file with several bad records: expected %s, the reader gave %s' % (k, want[:60], str(got)[:60])})
+            break
+    if not ps and case.get('tail') in ('truncated', 'oversize'):
+        k = len(frames) + 1
+        got = ev[k - 1] if k <= len(ev) else None
+        if got != 'E%d:%s' % (k, extra.hex()):
+            ps.append({'kind': 'oracle', 'sig': 'resilient-frame-fault', 'msg': 'framing fault in record %d after earlier bad records reported as %s' % (k, str(got)[:60])})
+    if mo is not None and not ps and not mo[0].startswith('UNMODELLED'):
+        mev = [] if mo[0] == 'OK -' else mo[0][3:].split('/')
+        canon = lambda e: ('R' + repr(sorted(iu.canon_entries(e[1:], drop_other=True).items()))) if e.startswith('R') else e
+        if not mo[0].startswith('OK ') or [canon(e) for e in mev] != [canon(e) for e in ev]:
+            ps.append({'kind': 'corr', 'sig': 'ipm_events', 'msg': 'event list differs from model: %s vs %s' % (str(ev)[:100], mo[0][:100])})
+    return ps
+
+
 def judge(case, io_, mo):
+    if case.get('style') == 'resilient':
+        return judge_resilient(case, io_, mo)
     ps = []
     f, ctx, trunc = build(case)
     k = case['k']
@@ -160,8 +260,12 @@ def judge(case, io_, mo):
 
 
 def nontrivial(case, io_):
+    if case.get('style') == 'resilient':
+        return sum(1 for sl in case['slots'] if sl[0] == 'bad') >= 2
     return case['k'] >= 2
 
 
 def label(case):
+    if case.get('style') == 'resilient':
+        return 'resilient/%s/%s/bad=%d/tail=%s' % ('1014' if case['blocked'] else 'vbs', case['codec'], sum(1 for sl in case['slots'] if sl[0] == 'bad'), case.get('tail'))
     return '%s/%s/%s/%s/n=%d' % (case['kind'], '1014' if case['blocked'] else 'vbs', case['codec'], case.get('style', 'loop'), len(case['good']))
